@@ -78,8 +78,13 @@ def corpus(prop):
 def run_corpus(prop, rep):
     """thorough tier: every mutant must be reported, naming the expected rule"""
     n = 0
-    for p in corpus(prop):
-        code, out, expect = run_mutant(p, prop)
+    # the runs are independent processes on scratch copies: several at a time (the sandbox has 16 cores; the three
+    # lanes of a full thorough run share them)
+    from concurrent.futures import ThreadPoolExecutor
+    pats = corpus(prop)
+    with ThreadPoolExecutor(max_workers=int(os.environ.get("VERIF_JOBS", "5"))) as ex:
+        results = list(ex.map(lambda q: run_mutant(q, prop), pats))
+    for p, (code, out, expect) in zip(pats, results):
         name = os.path.basename(p)
         fired = code == 1 and "VIOLATION property=%s" % prop in out
         named = fired and (expect is None or re.search(r"^\s+%s(\.\S+)? at " % re.escape(expect), out, re.M) is not None)
